@@ -3,7 +3,12 @@ open StarsimModel.C19
 #print axioms C19_source_flags
 #print axioms C19_exclusive
 #print axioms C19_fresh_exclusive
+#print axioms C19_fresh_inv
+#print axioms C19_links_all_histories
+#print axioms C19_edges_join_all_histories
 #print axioms C19_conception_eligible
+#print axioms C19_conception_eligible_modelled
+#print axioms C19_age_mask_both_forms
 #print axioms C19_probability_zeroed
 #print axioms C19_no_conception_in_pregnant
 #print axioms C19_links
